@@ -151,6 +151,9 @@ func c08Gen(tier string, seed int64) []fw.Case {
 				}
 				add(c08Desc{Kind: "bomb", Role: role, Params: p, BombMiB: mib, Limit: []int64{32768, 1000000, -2}[bi%3], Reader: readMode{"Read", 0}, Seed: rng.U64()}, fmt.Sprintf("bomb/%s/%s/%dMiB/limited/Read", role, paramsKey(p), mib))
 				add(c08Desc{Kind: "bomb", Role: role, Params: p, BombMiB: mib, Limit: -1, Reader: readMode{"Reader", 65536}, Seed: rng.U64()}, fmt.Sprintf("bomb/%s/%s/%dMiB/unlimited/Reader-64K", role, paramsKey(p), mib))
+				// the net.Conn adapter (it lifts the read limit) read with a small buffer: what it holds while
+				// receiving is what it hands out, not the message
+				add(c08Desc{Kind: "bomb", Role: role, Params: p, BombMiB: mib, Limit: -1, Reader: readMode{"NetConn", 4096}, Seed: rng.U64()}, fmt.Sprintf("bomb/%s/%s/%dMiB/unlimited/NetConn-4K", role, paramsKey(p), mib))
 			}
 		}
 	}
@@ -508,7 +511,31 @@ func c08Bomb(r *fw.R, d c08Desc) {
 	go peer.SendBytes(stream)
 	var delivered int64
 	var rerr error
-	if d.Reader.Kind == "Read" {
+	if d.Reader.Kind == "NetConn" {
+		nc := websocket.NetConn(ctx, c, websocket.MessageBinary)
+		buf := make([]byte, d.Reader.Buf)
+		for delivered < total {
+			n, err := nc.Read(buf)
+			delivered += int64(n)
+			for _, x := range buf[:n] {
+				if x != 0 {
+					r.Violate("C08/bomb-content", what+": non zero byte delivered", "")
+					return
+				}
+			}
+			if delivered == int64(n) && n > 0 {
+				// after the FIRST Read of a few KiB: that much has been delivered, and about that much allocated
+				if a := int64(totalAlloc() - a0); a > 3<<20+int64(d.Reader.Buf) {
+					r.Violate("C08/memory-grows-with-compression-ratio/netconn-first-read", fmt.Sprintf("%s: %d bytes had been allocated when the first Read returned %d bytes", what, a, n), "")
+					return
+				}
+			}
+			if err != nil {
+				rerr = err
+				break
+			}
+		}
+	} else if d.Reader.Kind == "Read" {
 		var b []byte
 		_, b, rerr = c.Read(ctx)
 		delivered = int64(len(b))
